@@ -386,7 +386,7 @@ package keeper
 
 //@ func Keeper.InitGenesis(ctx, genState)
 //@   props C10 C15
-//@   requires forall r `BytesV`, sd `BytesV` :: {str_store[kStream(r, sd)]} !strHas(str_store, r, sd)
+//@   requires noStreams(str_store)
 //@   requires forall j int :: {genState.Streams[j]} 0 <= j && j < len(genState.Streams) ==> !isnil(genState.Streams[j].Stream.Deposit.Amount) && 0 <= Amt(genState.Streams[j].Stream.Deposit) && Amt(genState.Streams[j].Stream.Deposit) < P255 && validDenom(genState.Streams[j].Stream.Deposit.Denom) && validTime(genState.Streams[j].Stream.LastOutflowTime) && validTime(genState.Streams[j].Stream.DepositZeroTime)
 //@   requires forall i int, j int :: {genState.Streams[i], genState.Streams[j]} 0 <= i && i < j && j < len(genState.Streams) && validBech32(genState.Streams[i].Receiver) && validBech32(genState.Streams[i].Sender) && validBech32(genState.Streams[j].Receiver) && validBech32(genState.Streams[j].Sender) ==> !(addrB(genState.Streams[i].Receiver) == addrB(genState.Streams[j].Receiver) && addrB(genState.Streams[i].Sender) == addrB(genState.Streams[j].Sender))
 //@   let xs := genState.Streams
